@@ -208,6 +208,36 @@ var llKinds = []llKind{
 	{"(x &optional (y 2))", []string{"x", "y"}, []string{"1", "1 7"}},
 	{"(x &rest r)", []string{"x"}, []string{"1", "1 2 3"}},
 	{"(x &key (k 3) j)", []string{"x", "k"}, []string{"1", "1 :k 9", "2 :j 4 :k 1"}},
+	// defaults that are forms: stored unevaluated, written as they are, evaluated when the argument is missing
+	{"(x &optional (y (+ x 1)) &key (k (* 2 x)))", []string{"x", "y", "k"}, []string{"1", "1 7", "1 7 :k 2", "3"}},
+	{"(x &key (k (if (> x 0) (- x 1) 2)))", []string{"x", "k"}, []string{"1", "-4", "1 :k 9"}},
+}
+
+// oneArg: lambda lists that accept a single argument
+func oneArg(k string) bool {
+	return k == "(x)" || k == "(x &optional (y 2))" || k == "(x &rest r)" || k == "(x &key (k 3) j)" ||
+		k == "(x &optional (y (+ x 1)) &key (k (* 2 x)))" || k == "(x &key (k (if (> x 0) (- x 1) 2)))"
+}
+
+// The block of default forms: every shape of default value x {&optional, &key} x {defun, defmacro, lambda held by a
+// variable}, one session per definer, enumerated on every run.
+var defaultForms = []string{"2", "\"s\"", ":kw", "t", "'(1 2)", "'sym", "#(1 2)", "(list x 1)", "(+ x 1)", "(cons x nil)",
+	"(list (* x 2) \"s\")", "(if (> x 0) 1 2)", "(let ((z (* x 2))) (+ z 1))"}
+
+func defaultFormSessions() (sessions [][]string, probes [][]string) {
+	letters := "abcdefghijklmnopqrstuvwxyz"
+	var fs, ms, ls, fp, mp, lp []string
+	for i, d := range defaultForms {
+		c := string(letters[i])
+		fs = append(fs, fmt.Sprintf("(defun dfo%s (x &optional (y %s)) (list x y))", c, d), fmt.Sprintf("(defun dfk%s (x &key (k %s) j) (list x k j))", c, d))
+		fp = append(fp, fmt.Sprintf("(dfo%s 3)", c), fmt.Sprintf("(dfo%s 3 4)", c), fmt.Sprintf("(dfk%s 3)", c), fmt.Sprintf("(dfk%s 3 :j 1)", c), fmt.Sprintf("(dfk%s 3 :k 5)", c),
+			fmt.Sprintf("(make-load-form 'dfo%s)", c))
+		ms = append(ms, fmt.Sprintf("(defmacro dmo%s (x &optional (y %s)) (list 'list x (list 'quote y)))", c, d))
+		mp = append(mp, fmt.Sprintf("(dmo%s 3)", c), fmt.Sprintf("(dmo%s 3 4)", c), fmt.Sprintf("(make-load-form 'dmo%s)", c))
+		ls = append(ls, fmt.Sprintf("(defvar *dl%s* (lambda (x &optional (y %s) &key (k %s)) (list x y k)))", c, d, d))
+		lp = append(lp, fmt.Sprintf("(funcall *dl%s* 3)", c), fmt.Sprintf("(funcall *dl%s* 3 4)", c), fmt.Sprintf("(funcall *dl%s* 3 4 :k 5)", c))
+	}
+	return [][]string{fs, ms, ls}, [][]string{fp, mp, lp}
 }
 
 func (g *sessGen) expr(vars []string, depth int) string {
@@ -245,7 +275,7 @@ func (g *sessGen) expr(vars []string, depth int) string {
 		// call of a function defined earlier with a one-argument-compatible lambda list
 		var cands []string
 		for n, k := range g.funs {
-			if k == "(x)" || k == "(x &optional (y 2))" || k == "(x &rest r)" || k == "(x &key (k 3) j)" {
+			if oneArg(k) {
 				// never a cycle (probes must terminate); reloaded in name order: a tame body only calls what sorts
 				// before it (a function called before it is defined loses its name in the next snapshot)
 				if !g.reaches(n, g.curFun, map[string]bool{}) && ((g.wild && g.curFun != "") || n < g.curFun) {
